@@ -454,6 +454,9 @@ static void do_pmh(void) {
         nd[np] = split_vals(f[4], &data[np]);
         np++;
     }
+    /* the declared boundary order (number of pages mod 3: 0 UNORDERED, 1 ASCENDING, 2 DESCENDING - the generator orders the
+     * pages accordingly) is set BEFORE the queries: any use page_might_match makes of it must stay free of false negatives */
+    carquet_column_index_set_boundary_order(b, np % 3);
     printf("OK n=%d addbad=%d m=", np, addbad);
     /* two passes over the queries: answers, then ground truth */
     char* qcopy = strdup(h_tok[3]);
